@@ -527,6 +527,11 @@ def c02(ctx):
             extra.append(enc_doc(fmt, {"k" * L: "v" * L}))
             extra.append(enc_doc(fmt, ["e\\n" + "s" * L, "t" * L]))
         extra += token_pair_docs(fmt)
+        if fmt == "json":        # lexical violations (the structure generator only breaks the bracket/comma/colon structure)
+            extra += [list(t) for t in (b"nxll", b"nuxl", b"nulx", b"trxe", b"txue", b"trux", b"fxlse", b"faxse", b"falsx", b"[nxll]", b'{"a":fa1se}', b"[trux,1]", b"[nulx ]",
+                                        b"1.e5", b"-x", b"[01]", b"1e+", b"[1e+]", b"-.5", b"[1.]", b'"\\x"', b'"\\u12g4"', b'["\\u00"]', b'{"a\\q":1}', b"[tru]", b"[nul", b"nulll", b"[truee]")]
+        if fmt == "ubjson":      # the byte 0 where a length marker is expected (the parser's own "no marker yet" value)
+            extra += [list(t) for t in (b"S\x00i\x01a", b"[#\x00i\x01T", b"{\x00i\x01aZ}", b"[$i#\x00i\x01\x05", b"[SU\x01aS\x00U\x01b]", b"{U\x01aH\x00i\x011}")]
         for doc in extra:
             n = len(doc)
             cl = [[i] for i in range(1, n)] + [sorted(rnd.sample(range(1, n), 2)) for _ in range(150 if ctx.quick else 800) if n > 2]
@@ -1404,7 +1409,11 @@ def c14(ctx):
             seen.add(k)
             types.append(r["T"])
     rnd.shuffle(types)
+    def nested_inline(T):
+        return T.get("k") == "struct" and any(("inline" in f["opts"] or "squash" in f["opts"]) and f["t"].get("k") == "struct" and
+                                              any("inline" in g["opts"] or "squash" in g["opts"] for g in f["t"]["f"]) for f in T["f"])
     generic = [dict(k="iface"), dict(k="slice", e=[dict(k="iface")]), dict(k="map", e=[dict(k="iface")])]        # always among the targets
+    generic += [T for T in types if nested_inline(T)]      # ... as are structs that inline a struct which inlines another (field offsets add up)
     types = generic + [T for T in types if T.get("k") != "iface"][: 500 if ctx.quick else 3000] + gotypes.user_types()      # ... and targets with user-defined unfolders
     others = list(types)
     cases = []
@@ -1533,15 +1542,18 @@ def c15(ctx):
                     sub["keycache"] = rnd.choice([0, 1, 2, 8])
                 if (n + j) % 5 == 0:
                     sub["prestr"] = True      # the same parser was used through ParseString (immutable input) before
+                if (n + j) % 3 == 1:
+                    sub["twice"] = True       # the document is unfolded a second time into the same target
                 cases.append(case("C15", "alias", fmt, doc=doc, cuts=cuts, sub=sub, origin="alias doc %d" % n))
             # maps whose elements are handled via reflection keep the key until the element is complete
             ms = {"k\\/1": [S(), S()], "k2" + S()[:2]: [S()], "e\n": []}
             d2 = enc_doc(fmt, ms)
             for cuts in ([], list(range(1, len(d2))), sorted(rnd.sample(range(1, len(d2)), 3))):
-                cases.append(case("C15", "alias", fmt, doc=d2, cuts=cuts, sub=dict(target="mapslice", follow=enc_doc(fmt, {"zz": [S()]}), gc=False), origin="map of slices %d" % n))
+                cases.append(case("C15", "alias", fmt, doc=d2, cuts=cuts, sub=dict(target="mapslice", follow=enc_doc(fmt, {"zz": [S()]}), gc=False, twice=(n % 2 == 0)), origin="map of slices %d" % n))
             mst = {"k\\/1": {"V": S()}, "q" + S()[:2]: {"V": S()}}
             d3 = enc_doc(fmt, mst)
-            cases.append(case("C15", "alias", fmt, doc=d3, cuts=sorted(rnd.sample(range(1, len(d3)), 2)), sub=dict(target="mapstruct", follow=enc_doc(fmt, {"zz": {"V": S()}}), gc=False), origin="map of structs %d" % n))
+            cases.append(case("C15", "alias", fmt, doc=d3, cuts=sorted(rnd.sample(range(1, len(d3)), 2)), sub=dict(target="mapstruct", follow=enc_doc(fmt, {"zz": {"V": S()}}), gc=False, twice=(n % 2 == 1)), origin="map of structs %d" % n))
+            cases.append(case("C15", "alias", fmt, doc=d3, cuts=[], sub=dict(target="mapstruct", follow=enc_doc(fmt, {"zz": {"V": S()}}), gc=False, twice=True), origin="map of structs twice %d" % n))
             # flat string maps exercise the typed map unfolders
             flat = {("k%d" % i) + S()[:3]: S() for i in range(4)}
             cases.append(case("C15", "alias", fmt, doc=enc_doc(fmt, flat), cuts=sorted(rnd.sample(range(1, len(enc_doc(fmt, flat))), 4)),
